@@ -12,21 +12,33 @@ package main
 //     headers are fixed at the first other status or Write). A slow client makes
 //     every write that reaches the recording writer a scheduling point
 //     (simhook.Pause), also the ones compress/gzip issues on its own from Close.
+//     The recording writer comes in four flavours that differ in the optional
+//     interfaces they offer (Flusher, Hijacker, ReaderFrom, CloseNotifier, Pusher);
+//     the scripted handler uses them the way real handlers do: it tries to take over
+//     the connection first (websocket style; the hijack works, fails or is not
+//     offered), flushes / pushes / asks for close notification between its writes
+//     and hands part of its body over with io.Copy.
 //     The driver interleaves the tasks at every statement of proxy/gzip; the
 //     instrumented sync.Pool is a LIFO, so a gzip writer that is used after it
 //     was returned corrupts another task's response deterministically.
 //   - event level (H2): real http.Server + main.newHTTPProxy with
 //     cfg.Proxy.GZIPContentTypes set, raw clients, raw scripted upstreams; the
 //     handler goroutines are adopted as tasks so that the gzip statements of
-//     concurrent requests interleave with segment deliveries.
+//     concurrent requests interleave with segment deliveries. The last request of
+//     a connection may be a websocket upgrade which the upstream accepts (101) or
+//     answers with an ordinary response; in some runs the server side writer
+//     cannot be hijacked (as on HTTP/2).
 //
 // The oracle is written from the property text (see c17Judge).
 
 import (
+	"bufio"
 	"bytes"
 	stdgzip "compress/gzip"
+	"errors"
 	"fmt"
 	"io"
+	"net"
 	"net/http"
 	"net/http/httptest"
 	"regexp"
@@ -78,17 +90,38 @@ type c17Spec struct {
 	BodyLen  int        `json:"body_len"`
 	Body     []byte     `json:"-"`
 	Chunks   []int      `json:"write_sizes,omitempty"`
+
+	// statement level: the optional interfaces of a response writer and how the scripted handler uses them
+	Writer      string    `json:"writer,omitempty"`                       // fabio: Flusher+Hijacker (like proxy.responseWriter) | http1: Flusher+Hijacker+CloseNotifier+ReaderFrom | http2: Flusher+CloseNotifier+Pusher | bare: none
+	Hijack      string    `json:"handler_tries_hijack,omitempty"`         // assert | controller: like a websocket handler the handler first tries to take over the connection, by type assertion or through http.ResponseController
+	HijackOK    bool      `json:"hijack_works,omitempty"`                 // the underlying Hijack succeeds (otherwise it fails as on an HTTP/2 stream; writers http2 and bare do not offer it at all)
+	AfterHijack bool      `json:"error_reported_after_hijack,omitempty"`  // after its stream the handler still reports an error through the ResponseWriter (net/http ignores that)
+	Calls       []c17Call `json:"optional_interface_calls,omitempty"`     // between the body writes
+	CopyRest    bool      `json:"rest_of_body_through_io_copy,omitempty"` // what the write sizes leave over goes through io.Copy (io.ReaderFrom of the writer where there is one)
+	tookConn    bool      // the handler obtained the connection
+	rawSent     []byte    // what it wrote to it
+
+	// h2: a websocket upgrade request (the last one on its connection); status 101 = the upstream accepts
+	Upgrade bool `json:"websocket_upgrade,omitempty"`
+	Control bool `json:"control_request,omitempty"` // h2, writer cannot be hijacked: upgrade request of a client that does not accept gzip (reference for fabio's own answer)
+}
+
+// c17Call is one use of an optional interface of the response writer by the scripted handler.
+type c17Call struct {
+	At   int    `json:"before_write"` // executed before the body write with this index (number of writes: after the last one)
+	Kind string `json:"kind"`         // flush (type assertion) | flush-controller (http.ResponseController) | push | closenotify
 }
 
 type c17Scenario struct {
-	Mode    string      `json:"mode"` // statement | h2
-	Regexp  string      `json:"gzip_content_types"`
-	Stick   int         `json:"stick,omitempty"`
-	Tasks   [][]c17Spec `json:"tasks"` // statement: one list per task; h2: one list per client connection
-	Shared  bool        `json:"shared_handler,omitempty"`
-	Adopt   bool        `json:"handler_goroutines_are_tasks,omitempty"` // h2 only
-	Slow    bool        `json:"slow_clients,omitempty"`                 // h2 with tasks: every write of a handler into its response parks the handler first
-	Exchngs int         `json:"exchanges"`
+	Mode     string      `json:"mode"` // statement | h2
+	Regexp   string      `json:"gzip_content_types"`
+	Stick    int         `json:"stick,omitempty"`
+	Tasks    [][]c17Spec `json:"tasks"` // statement: one list per task; h2: one list per client connection
+	Shared   bool        `json:"shared_handler,omitempty"`
+	Adopt    bool        `json:"handler_goroutines_are_tasks,omitempty"`     // h2 only
+	Slow     bool        `json:"slow_clients,omitempty"`                     // h2 with tasks: every write of a handler into its response parks the handler first
+	NoHijack bool        `json:"server_writer_cannot_be_hijacked,omitempty"` // h2: the handler gets a writer without http.Hijacker (as on HTTP/2 or behind a wrapping middleware)
+	Exchngs  int         `json:"exchanges"`
 }
 
 type c17AE struct {
@@ -321,7 +354,65 @@ func c17GenSpec(g *simcore.Tape, id string, h2 bool, maxBody int, re *regexp.Reg
 		// waits for it non-durably and the bubble never becomes quiescent. Larger replies declare their length.
 		sp.HasCL = true
 	}
+	if !h2 {
+		// which optional interfaces the writer under the compression layer offers, and how the handler uses them
+		sp.Writer = simcore.Pick(g, []string{"fabio", "http1", "fabio", "http2", "bare", "http1"})
+		switch g.Intn(6) {
+		case 4:
+			sp.Hijack = "assert"
+		case 5:
+			sp.Hijack = "controller"
+		}
+		if sp.Hijack != "" {
+			sp.HijackOK = g.Bool() && (sp.Writer == "fabio" || sp.Writer == "http1")
+			sp.AfterHijack = sp.HijackOK && g.Intn(3) == 2
+		}
+		nw := len(c17Pieces(sp.Body, sp.Chunks))
+		for i, n := 0, simcore.Pick(g, []int{0, 0, 1, 0, 2, 3, 1}); i < n; i++ {
+			sp.Calls = append(sp.Calls, c17Call{At: g.Intn(nw + 1), Kind: simcore.Pick(g, []string{"flush", "flush-controller", "flush", "push", "closenotify"})})
+		}
+		sort.SliceStable(sp.Calls, func(i, j int) bool { return sp.Calls[i].At < sp.Calls[j].At })
+		sp.CopyRest = g.Intn(4) == 3
+	}
 	return sp
+}
+
+// c17Pieces is the sequence of body writes of the scripted handler: the write sizes as far as the body reaches
+// (an exhausted body gives empty writes), then the remainder.
+func c17Pieces(body []byte, sizes []int) [][]byte {
+	var out [][]byte
+	rest := body
+	for _, n := range sizes {
+		if n > len(rest) {
+			n = len(rest)
+		}
+		out = append(out, rest[:n])
+		rest = rest[n:]
+	}
+	if len(rest) > 0 {
+		out = append(out, rest)
+	}
+	return out
+}
+
+// c17MakeUpgrade turns an exchange of an H2 run into a websocket upgrade: in two of three cases the upstream accepts
+// (101 Switching Protocols, the connection becomes a tunnel), otherwise it answers with the ordinary response drawn
+// before (any status, compressible body or not).
+func c17MakeUpgrade(g *simcore.Tape, sp *c17Spec) {
+	sp.Upgrade = true
+	sp.Method = "GET"
+	sp.ReqBody = 0
+	sp.Info, sp.InfoHdr, sp.InfoCT = nil, "", ""
+	sp.ReqHeaders = append(sp.ReqHeaders, h2Header{"Upgrade", "websocket"}, h2Header{"Connection", "Upgrade"},
+		h2Header{"Sec-WebSocket-Key", "dGhlIHNhbXBsZSBub25jZQ=="}, h2Header{"Sec-WebSocket-Version", "13"})
+	if g.Intn(3) != 2 {
+		sp.Status = 101
+		sp.Explicit = true
+		sp.CE = ""
+		sp.BodyKind, sp.Body, sp.BodyLen, sp.Chunks = "none", nil, 0, nil
+		sp.HasCL = true
+		sp.Extra = append(sp.Extra, c17HdrOp{K: "Sec-Websocket-Accept", V: "s3pPLMBiTxaQ9kYGzzhZRbK+xOo="})
+	}
 }
 
 // c17MaxChunkedBody is the largest upstream reply of unknown length in H2 runs (below the simnet window).
@@ -372,7 +463,29 @@ func c17Gen(g *simcore.Tape, thorough bool, force string) (*c17Scenario, *regexp
 			list = append(list, sp)
 			id++
 		}
+		if h2 && g.Intn(3) == 2 {
+			// an upgraded connection is a tunnel: nothing may follow on it
+			c17MakeUpgrade(g, &list[len(list)-1])
+		}
 		sc.Tasks = append(sc.Tasks, list)
+	}
+	if h2 {
+		upgrades := 0
+		for _, list := range sc.Tasks {
+			if list[len(list)-1].Upgrade {
+				upgrades++
+			}
+		}
+		sc.NoHijack = g.Intn(3) == 2 && upgrades > 0
+		if sc.NoHijack {
+			// What fabio itself answers when the connection cannot be taken over is not for this oracle to say: a
+			// further client that does NOT accept gzip (its response bypasses the compression layer by the
+			// property's own terms) sends the same upgrade request and supplies the reference.
+			sp := c17Spec{ID: fmt.Sprintf("x%d", id), Method: "GET", AEClass: "no", Upgrade: true, Control: true, Status: 101, Explicit: true, BodyKind: "none"}
+			sp.ReqHeaders = []h2Header{{"Upgrade", "websocket"}, {"Connection", "Upgrade"}, {"Sec-WebSocket-Key", "dGhlIHNhbXBsZSBub25jZQ=="}, {"Sec-WebSocket-Version", "13"}}
+			sc.Tasks = append(sc.Tasks, []c17Spec{sp})
+			id++
+		}
 	}
 	sc.Exchngs = id
 	return sc, re
@@ -447,6 +560,9 @@ func c17SameList(a, b []string) bool {
 // an absent content type and Accept-Encoding values whose meaning is debatable make the decision free.
 func c17Judge(r *simcore.Run, re *regexp.Regexp, sp *c17Spec, got *c17Got, h2 bool) (compressed bool) {
 	what := fmt.Sprintf("%s id=%s accept-encoding=%s status=%d type=%s encoding=%q body=%d(%s)", sp.Method, sp.ID, c17Str(sp.AE), sp.Status, c17Str(sp.CT), sp.CE, len(sp.Body), sp.BodyKind)
+	if sp.Upgrade {
+		what += " (websocket upgrade request)"
+	}
 	if got == nil || got.Err != nil {
 		var err error
 		if got != nil {
@@ -471,7 +587,7 @@ func c17Judge(r *simcore.Run, re *regexp.Regexp, sp *c17Spec, got *c17Got, h2 bo
 		}
 	}
 	sent := sp.sentHeader()
-	bodiless := sp.Method == "HEAD" || wantStatus == 204 || wantStatus == 304
+	bodiless := sp.Method == "HEAD" || wantStatus == 204 || wantStatus == 304 || wantStatus == http.StatusSwitchingProtocols
 
 	// may the response be compressed at all?
 	why := ""
@@ -620,10 +736,14 @@ func c17HeaderDiff(sent, got http.Header, skip map[string]bool) string {
 // ---------------------------------------------------------------- statement level
 
 // c17Rec stands in for net/http's response: an informational status (1xx other than 101) goes out at once with the
-// headers of that moment and leaves the response open; the header map is frozen at the first other status or Write.
-// With slow set the client is slow: every write that reaches the network (informational responses, body writes)
-// is a scheduling point at which the handler is parked until the driver releases it - also when the write is
-// issued from inside compress/gzip, which has no yield sites of its own.
+// headers of that moment and leaves the response open; the header map is frozen at the first other status, Write or
+// Flush. With slow set the client is slow: every write that reaches the network (informational responses, body
+// writes, flushes, writes to a hijacked connection) is a scheduling point at which the handler is parked until the
+// driver releases it - also when the write is issued from inside compress/gzip, which has no yield sites of its own.
+// Once the connection has been hijacked the response is out of net/http's hands: status calls are ignored, Write
+// fails with http.ErrHijacked, and what the client sees is what is written to the connection.
+//
+// c17Rec itself offers http.ResponseWriter only; the flavours below add optional interfaces.
 type c17Rec struct {
 	r        *simcore.Run
 	hdr      http.Header
@@ -633,6 +753,12 @@ type c17Rec struct {
 	body     bytes.Buffer
 	slow     bool
 	finished bool
+
+	hijackOK bool
+	hijacked bool
+	dirty    bool         // something had been written through the ResponseWriter when the connection was taken over
+	stream   bytes.Buffer // bytes written to the hijacked connection
+	flushes  int
 }
 
 func (w *c17Rec) Header() http.Header { return w.hdr }
@@ -643,7 +769,7 @@ func (w *c17Rec) late() bool {
 	return w.finished
 }
 func (w *c17Rec) WriteHeader(code int) {
-	if w.late() || w.snap != nil {
+	if w.late() || w.snap != nil || w.hijacked {
 		return
 	}
 	if code >= 100 && code <= 199 && code != http.StatusSwitchingProtocols {
@@ -663,10 +789,59 @@ func (w *c17Rec) Write(b []byte) (int, error) {
 	if w.late() {
 		return 0, http.ErrHandlerTimeout
 	}
+	if w.hijacked {
+		return 0, http.ErrHijacked
+	}
 	if w.snap == nil {
 		w.WriteHeader(200)
 	}
 	return w.body.Write(b)
+}
+func (w *c17Rec) flush() {
+	if w.slow {
+		simhook.Pause()
+	}
+	if w.late() || w.hijacked {
+		return
+	}
+	if w.snap == nil {
+		w.WriteHeader(200)
+	}
+	w.flushes++
+}
+func (w *c17Rec) hijack() (net.Conn, *bufio.ReadWriter, error) {
+	if w.late() {
+		return nil, nil, http.ErrHandlerTimeout
+	}
+	if w.hijacked {
+		return nil, nil, http.ErrHijacked
+	}
+	if !w.hijackOK {
+		return nil, nil, errors.New("this connection cannot be hijacked")
+	}
+	w.dirty = w.snap != nil || len(w.interim) > 0
+	w.hijacked = true
+	c := &c17Conn{rec: w}
+	return c, bufio.NewReadWriter(bufio.NewReader(c), bufio.NewWriter(c)), nil
+}
+func (w *c17Rec) readFrom(src io.Reader) (n int64, err error) {
+	buf := make([]byte, 32<<10)
+	for {
+		k, rerr := src.Read(buf)
+		if k > 0 {
+			m, werr := w.Write(buf[:k])
+			n += int64(m)
+			if werr != nil {
+				return n, werr
+			}
+		}
+		if rerr == io.EOF {
+			return n, nil
+		}
+		if rerr != nil {
+			return n, rerr
+		}
+	}
 }
 func (w *c17Rec) result() *c17Got {
 	if w.snap == nil { // the handler wrote nothing: net/http sends 200 with the headers as they are
@@ -676,10 +851,102 @@ func (w *c17Rec) result() *c17Got {
 	return &c17Got{Status: w.status, Header: w.snap, Body: w.body.Bytes(), Interim: w.interim}
 }
 
+// the flavours: which optional interfaces the writer under the compression layer offers
+type (
+	c17RecFabio struct{ *c17Rec } // like fabio's proxy.responseWriter: Flusher, Hijacker (which may fail)
+	c17RecH1    struct{ *c17Rec } // like net/http's HTTP/1 response: Flusher, Hijacker, CloseNotifier, ReaderFrom
+	c17RecH2    struct{ *c17Rec } // like net/http's HTTP/2 response: Flusher, CloseNotifier, Pusher
+)
+
+func (w c17RecFabio) Flush()                                       { w.flush() }
+func (w c17RecFabio) Hijack() (net.Conn, *bufio.ReadWriter, error) { return w.hijack() }
+func (w c17RecH1) Flush()                                          { w.flush() }
+func (w c17RecH1) Hijack() (net.Conn, *bufio.ReadWriter, error)    { return w.hijack() }
+func (w c17RecH1) CloseNotify() <-chan bool                        { return make(chan bool, 1) }
+func (w c17RecH1) ReadFrom(src io.Reader) (int64, error)           { return w.readFrom(src) }
+func (w c17RecH2) Flush()                                          { w.flush() }
+func (w c17RecH2) CloseNotify() <-chan bool                        { return make(chan bool, 1) }
+func (w c17RecH2) Push(string, *http.PushOptions) error            { return http.ErrNotSupported }
+
+func (w *c17Rec) flavour(name string) http.ResponseWriter {
+	switch name {
+	case "fabio":
+		return c17RecFabio{w}
+	case "http1":
+		return c17RecH1{w}
+	case "http2":
+		return c17RecH2{w}
+	}
+	return w
+}
+
+// c17Conn is the connection of a hijacked exchange as the handler sees it: what is written goes to the client.
+type c17Conn struct {
+	rec    *c17Rec
+	closed bool
+}
+
+type c17Addr string
+
+func (a c17Addr) Network() string { return "tcp" }
+func (a c17Addr) String() string  { return string(a) }
+
+func (c *c17Conn) Read([]byte) (int, error) { return 0, io.EOF }
+func (c *c17Conn) Write(b []byte) (int, error) {
+	if c.rec.slow {
+		simhook.Pause()
+	}
+	if c.closed {
+		return 0, net.ErrClosed
+	}
+	return c.rec.stream.Write(b)
+}
+func (c *c17Conn) Close() error                     { c.closed = true; return nil }
+func (c *c17Conn) LocalAddr() net.Addr              { return c17Addr("192.0.2.1:80") }
+func (c *c17Conn) RemoteAddr() net.Addr             { return c17Addr("192.0.2.2:5000") }
+func (c *c17Conn) SetDeadline(time.Time) error      { return nil }
+func (c *c17Conn) SetReadDeadline(time.Time) error  { return nil }
+func (c *c17Conn) SetWriteDeadline(time.Time) error { return nil }
+
+// c17OnlyReader hides every other method of a reader (io.Copy then has to ask the destination for io.ReaderFrom).
+type c17OnlyReader struct{ io.Reader }
+
+const c17StreamHead = "HTTP/1.1 101 Switching Protocols\r\nUpgrade: websocket\r\nConnection: Upgrade\r\n\r\n"
+
 // c17Inner plays the scripted responses.
 func c17Inner(specs map[string]*c17Spec) http.Handler {
 	return http.HandlerFunc(func(w http.ResponseWriter, req *http.Request) {
 		sp := specs[req.Header.Get("X-Sim-Id")]
+		if sp.Hijack != "" {
+			// like a websocket handler: take over the connection and talk on it; if that is not possible the
+			// scripted response (typically an error) goes through the ResponseWriter
+			var conn net.Conn
+			var brw *bufio.ReadWriter
+			err := errors.New("not a Hijacker")
+			if sp.Hijack == "controller" {
+				conn, brw, err = http.NewResponseController(w).Hijack()
+			} else if hj, ok := w.(http.Hijacker); ok {
+				conn, brw, err = hj.Hijack()
+			}
+			if err == nil {
+				sp.tookConn = true
+				pieces := append([][]byte{[]byte(c17StreamHead)}, c17Pieces(sp.Body, sp.Chunks)...)
+				for i, b := range pieces {
+					sp.rawSent = append(sp.rawSent, b...)
+					if i%2 == 0 {
+						conn.Write(b)
+					} else {
+						brw.Write(b)
+						brw.Flush()
+					}
+				}
+				if sp.AfterHijack {
+					http.Error(w, "the other side went away", http.StatusBadGateway)
+				}
+				conn.Close()
+				return
+			}
+		}
 		h := w.Header()
 		if sp.InfoHdr != "kept" {
 			// like httputil.ReverseProxy: the informational response carries header fields of its own and the
@@ -717,21 +984,58 @@ func c17Inner(specs map[string]*c17Spec) http.Handler {
 		if sp.Explicit {
 			w.WriteHeader(sp.Status)
 		}
+		calls := sp.Calls
+		use := func(at int) {
+			for len(calls) > 0 && calls[0].At <= at {
+				switch calls[0].Kind {
+				case "flush":
+					if f, ok := w.(http.Flusher); ok {
+						f.Flush()
+					}
+				case "flush-controller":
+					http.NewResponseController(w).Flush()
+				case "push":
+					if p, ok := w.(http.Pusher); ok {
+						p.Push("/style.css", nil)
+					}
+				case "closenotify":
+					if cn, ok := w.(http.CloseNotifier); ok {
+						cn.CloseNotify()
+					}
+				}
+				calls = calls[1:]
+			}
+		}
 		if sp.Status == 204 || sp.Status == 304 {
+			use(0)
 			return
 		}
-		rest := sp.Body
-		for _, n := range sp.Chunks {
-			if n > len(rest) {
-				n = len(rest)
+		pieces := c17Pieces(sp.Body, sp.Chunks)
+		for i, b := range pieces {
+			use(i)
+			if sp.CopyRest && i == len(pieces)-1 && i >= len(sp.Chunks) {
+				io.Copy(w, c17OnlyReader{bytes.NewReader(b)})
+			} else {
+				w.Write(b)
 			}
-			w.Write(rest[:n])
-			rest = rest[n:]
 		}
-		if len(rest) > 0 {
-			w.Write(rest)
-		}
+		use(len(pieces))
 	})
+}
+
+// c17JudgeHijacked: the handler took over the connection and produced its response as a raw stream (status line
+// included). Status and content are preserved iff exactly that stream reached the client: nothing before it (a
+// status or interim response written through the ResponseWriter would precede the handler's own status line) and
+// the bytes unchanged. What the handler says through the ResponseWriter afterwards never reaches the client.
+func c17JudgeHijacked(r *simcore.Run, sp *c17Spec, rec *c17Rec) {
+	what := fmt.Sprintf("%s id=%s accept-encoding=%s writer=%s: the handler took over the connection and wrote %d bytes to it", sp.Method, sp.ID, c17Str(sp.AE), sp.Writer, len(sp.rawSent))
+	if rec.dirty {
+		r.Fail("hijack", "response-before-stream", "%s, but a response (interim %v, status %d) had been written through the ResponseWriter before", what, rec.interim, rec.status)
+	}
+	if got := rec.stream.Bytes(); !bytes.Equal(got, sp.rawSent) {
+		r.Fail("hijack", "stream", "%s, %d reached the client (equal prefix %d)", what, len(got), commonPrefix(got, sp.rawSent))
+	}
+	r.Probe("hijacked_stream_verified")
 }
 
 func runC17Statement(r *simcore.Run, sc *c17Scenario, re *regexp.Regexp) {
@@ -764,13 +1068,13 @@ func runC17Statement(r *simcore.Run, sc *c17Scenario, re *regexp.Regexp) {
 				for _, h := range sp.ReqHeaders {
 					req.Header.Add(h.K, h.V)
 				}
-				rec := &c17Rec{r: r, hdr: http.Header{}, slow: sp.Slow}
+				rec := &c17Rec{r: r, hdr: http.Header{}, slow: sp.Slow, hijackOK: sp.HijackOK}
 				recs[t] = append(recs[t], rec)
 				h := shared
 				if !sc.Shared {
 					h = fgzip.NewGzipHandler(inner, re) // as HTTPProxy.ServeHTTP does: a new wrapper per request
 				}
-				h.ServeHTTP(rec, req)
+				h.ServeHTTP(rec.flavour(sp.Writer), req)
 				rec.finished = true
 			}
 		})
@@ -795,6 +1099,20 @@ func runC17Statement(r *simcore.Run, sc *c17Scenario, re *regexp.Regexp) {
 			rec := recs[t][k]
 			if !rec.finished {
 				continue // the task panicked inside this exchange
+			}
+			if len(sp.Calls) > 0 {
+				r.Probe("handler_uses_flush_push_closenotify")
+			}
+			if rec.flushes > 0 {
+				r.Probe("flush_reached_the_underlying_writer")
+			}
+			if sp.Hijack != "" && !sp.tookConn {
+				r.Probe("hijack_failed_response_through_writer")
+			}
+			if sp.tookConn {
+				c17JudgeHijacked(r, sp, rec)
+				r.Tracef("req%d.%d %s -> hijacked, stream=%d", t, k, sp.ID, rec.stream.Len())
+				continue
 			}
 			got := rec.result()
 			comp := c17Judge(r, re, sp, got, false)
@@ -830,6 +1148,49 @@ func (w *c17SlowWriter) Flush() {
 		f.Flush()
 	}
 }
+func (w *c17SlowWriter) Hijack() (net.Conn, *bufio.ReadWriter, error) {
+	if hj, ok := w.ResponseWriter.(http.Hijacker); ok {
+		return hj.Hijack()
+	}
+	return nil, nil, http.ErrNotSupported
+}
+
+// c17PlainWriter is a server side writer whose connection cannot be taken over (no http.Hijacker, no Unwrap): what
+// a handler gets on an HTTP/2 stream or behind a wrapping middleware.
+type c17PlainWriter struct{ http.ResponseWriter }
+
+func (w *c17PlainWriter) Flush() {
+	if f, ok := w.ResponseWriter.(http.Flusher); ok {
+		f.Flush()
+	}
+}
+
+// c17FromControl rewrites the response side of sp to what the control request received: the response the inner
+// handler produces for an upgrade request whose connection cannot be taken over (it does not depend on
+// Accept-Encoding; the control request does not accept gzip, so by the property it was delivered as produced).
+func c17FromControl(sp *c17Spec, c *c17Got) {
+	sp.Status, sp.Explicit, sp.Info = c.Status, true, nil
+	sp.CT, sp.CE, sp.Extra = nil, "", nil
+	sp.Body, sp.BodyLen, sp.BodyKind, sp.Chunks = c.Body, len(c.Body), "fabio's own answer", nil
+	h := h2EndToEnd(c.Header, map[string]bool{"Content-Length": true, "Date": true})
+	var keys []string
+	for k := range h {
+		keys = append(keys, k)
+	}
+	sort.Strings(keys)
+	for _, k := range keys {
+		for _, v := range h[k] {
+			switch {
+			case k == "Content-Type":
+				v := v
+				sp.CT = &v
+			case k == "Vary" && strings.EqualFold(strings.TrimSpace(v), "Accept-Encoding"):
+			default:
+				sp.Extra = append(sp.Extra, c17HdrOp{K: k, V: v})
+			}
+		}
+	}
+}
 
 func runC17H2(r *simcore.Run, sc *c17Scenario, re *regexp.Regexp) {
 	cfg := &config.Config{}
@@ -860,18 +1221,26 @@ func runC17H2(r *simcore.Run, sc *c17Scenario, re *regexp.Regexp) {
 			}
 		}
 	}
+	if sc.NoHijack {
+		r.Probe("h2_writer_cannot_be_hijacked")
+	}
 	e.wrap = func(h http.Handler) http.Handler {
-		if !sc.Adopt {
+		if !sc.Adopt && !sc.NoHijack {
 			return h
 		}
 		return http.HandlerFunc(func(w http.ResponseWriter, req *http.Request) {
-			mu.Lock()
-			perConn[req.RemoteAddr]++
-			name := fmt.Sprintf("h:%s#%d", req.RemoteAddr, perConn[req.RemoteAddr])
-			mu.Unlock()
-			defer simhook.Adopt(name)()
-			if sc.Slow {
-				w = &c17SlowWriter{w}
+			if sc.NoHijack {
+				w = &c17PlainWriter{w}
+			}
+			if sc.Adopt {
+				mu.Lock()
+				perConn[req.RemoteAddr]++
+				name := fmt.Sprintf("h:%s#%d", req.RemoteAddr, perConn[req.RemoteAddr])
+				mu.Unlock()
+				defer simhook.Adopt(name)()
+				if sc.Slow {
+					w = &c17SlowWriter{w}
+				}
 			}
 			h.ServeHTTP(w, req)
 		})
@@ -894,6 +1263,9 @@ func runC17H2(r *simcore.Run, sc *c17Scenario, re *regexp.Regexp) {
 				rq.BodyLen = len(rq.Body)
 			}
 			rs := h2Resp{Status: sp.Status, Body: sp.Body, BodyLen: len(sp.Body), Chunked: !sp.HasCL, Chunks: sp.Chunks, Early: len(sp.Info)}
+			if sp.Status == 101 {
+				rs.Headers = append(rs.Headers, h2Header{"Upgrade", "websocket"}, h2Header{"Connection", "Upgrade"})
+			}
 			if sp.CT != nil {
 				rs.Headers = append(rs.Headers, h2Header{"Content-Type", *sp.CT})
 			}
@@ -914,6 +1286,16 @@ func runC17H2(r *simcore.Run, sc *c17Scenario, re *regexp.Regexp) {
 		r.Trouble("clients did not finish: %v", e.d.Sim.TaskStates())
 		return
 	}
+	// let the ends of upgraded tunnels travel so that teardown finds nothing in flight
+	e.d.Run(4000, func() bool { return !e.net.Pending() })
+	// the reference for upgrade requests whose connection could not be taken over (see c17Gen)
+	var control *c17Got
+	if sc.NoHijack {
+		sp := &sc.Tasks[len(sc.Tasks)-1][0]
+		if res := e.results[sp.ID]; res != nil {
+			control = &c17Got{Err: res.Err, Status: res.Status, Header: res.Header, Body: res.Body, BodyErr: res.BodyErr, Interim: res.Interim}
+		}
+	}
 	ncomp := 0
 	for c := range sc.Tasks {
 		for k := range sc.Tasks[c] {
@@ -923,13 +1305,31 @@ func runC17H2(r *simcore.Run, sc *c17Scenario, re *regexp.Regexp) {
 				r.Trouble("no result for %s", sp.ID)
 				continue
 			}
-			if len(e.seen[sp.ID]) != 1 {
+			got := &c17Got{Err: res.Err, Status: res.Status, Header: res.Header, Body: res.Body, BodyErr: res.BodyErr, Interim: res.Interim}
+			spec := *sp
+			if sp.Upgrade && sc.NoHijack {
+				// fabio's own answer; whether the upstream was contacted is not this property's business
+				r.Probe("h2_upgrade_without_hijacker")
+				if sp.Control {
+					if res.Err != nil {
+						r.Fail("response", "no-response", "upgrade request %s of a client that does not accept gzip: no response: %v", sp.ID, res.Err)
+					} else if ce := res.Header["Content-Encoding"]; len(ce) > 0 {
+						r.Fail("compressed", "client-does-not-accept-gzip", "upgrade request %s without Accept-Encoding was answered with Content-Encoding %q", sp.ID, ce)
+					}
+					continue
+				}
+				if control == nil || control.Err != nil || control.BodyErr != nil || len(control.Header["Content-Encoding"]) > 0 {
+					continue // no usable reference (reported above)
+				}
+				c17FromControl(&spec, control)
+			} else if len(e.seen[sp.ID]) != 1 {
 				r.Fail("response", "not-forwarded-once", "%s %s: the upstream received the request %d times", sp.Method, sp.ID, len(e.seen[sp.ID]))
 				continue
 			}
-			got := &c17Got{Err: res.Err, Status: res.Status, Header: res.Header, Body: res.Body, BodyErr: res.BodyErr, Interim: res.Interim}
+			if sp.Upgrade {
+				r.Probe(fmt.Sprintf("h2_upgrade_upstream_status_101_%v", sp.Status == 101))
+			}
 			// the upstream's framing: a Content-Length header is what h2RenderResponse adds when the reply is not chunked
-			spec := *sp
 			spec.HasCL = false
 			if c17Judge(r, re, &spec, got, true) {
 				ncomp++
